@@ -146,6 +146,9 @@ def run(ctx):
         c4 = gs._quat_to_components(An)
         back = qx.from_np(gs._components_to_quat(*c4))
         if not qx.eq(back, A) or any(fr(p) != fr(c) for p, c in zip(c4, cA)): viol('C02:components', 'component conversion of the Krylov solver is lossy', A)
+        for cont in (tuple, list):
+            c4t = gs._quat_to_components(cont(np.array(c, dtype=float) for c in cA))
+            if any(fr(p) != fr(c) for p, c in zip(c4t, cA)): viol('C02:components:presplit', f'planes handed over already split (as a {cont.__name__}) come back changed or reordered', A)
         from .c01 import mk_sparse
         c4s = gs._quat_to_components(mk_sparse(utils, A))
         if any(fr(p) != fr(c) for p, c in zip(c4s, cA)): viol('C02:components:sparse', 'sparse component conversion differs', A)
